@@ -14,9 +14,10 @@ CONSTANTS
   Weak_LightCountsNil = FALSE
   Weak_NoDoubleSignCheck = FALSE
   Weak_SeenByCommitSlotRange = FALSE
+  Weak_TrustsEncodedTotal = FALSE
   Weak_NoBlockIDCheck = FALSE
   Weak_SignBytesIgnoreRound = FALSE
 INIT CaseInit
 NEXT CaseNext
-INVARIANTS CaseSoundFull CaseSoundLight CaseSoundTrusting CaseAgree CaseGenuineAccepted CaseFullImpliesLight CaseSillyFractions
+INVARIANTS CaseSoundFull CaseSoundLight CaseSoundTrusting CaseAgree CaseGenuineAccepted CaseWireNeutral CaseFullImpliesLight CaseSillyFractions
 CHECK_DEADLOCK FALSE
